@@ -180,7 +180,7 @@ func rejectSpecs() []rejectSpec {
 	return []rejectSpec{
 		{fn: "codec.IsValidRID", reject: append(append([]rune{}, asciiBad...), '*', '>'), accept: []rune{'a', 'Z', '0', '_', '-', '{', '}', '~', '!'}},
 		{fn: "codec.IsValidRIDPart", reject: append(append([]rune{}, asciiBad...), '*', '>', '.', '?'), accept: []rune{'a', 'Z', '0', '_', '-', '~', '!'}},
-		{fn: "rescache.ParseResourcePattern", reject: append(append([]rune{}, asciiBad...), '?'), accept: []rune{'a', 'Z', '0', '_'}},
+		{fn: "rescache.ParseResourcePattern", reject: append(append([]rune{}, asciiBad...), '?'), accept: []rune{'a', 'Z', '0', '_', '!', '~'}},
 	}
 }
 
